@@ -1884,6 +1884,8 @@ struct ReportDataResponder<'a, 'b, 'c, const NE: usize, C> {
     events: &'a Events<NE>,
     /// How much of `LONG_READS_TLV_RESERVE_SIZE` is still held back in the reply being built
     reserve: usize,
+    /// The buffer position at which the reply being built carries no payload yet
+    fresh_tail: usize,
 }
 
 impl<'a, 'b, 'c, const NE: usize, C> ReportDataResponder<'a, 'b, 'c, NE, C>
@@ -1909,6 +1911,7 @@ where
             event_reader,
             events,
             reserve: 0,
+            fresh_tail: 0,
         }
     }
 
@@ -1935,6 +1938,7 @@ where
         let mut empty = true;
 
         self.start_reply(wb)?;
+        self.fresh_tail = wb.get_tail();
 
         if !self
             .report_attributes(wb, &mut empty, &metadata, &mut filter)
@@ -1972,6 +1976,7 @@ where
 
         if self.req.attr_requests()?.is_some() {
             wb.start_array(&TLVTag::Context(ReportDataRespTag::AttributeReports as u8))?;
+            self.fresh_tail = wb.get_tail();
 
             for item in expand_read(&metadata, self.req, &accessor, &mut filter)? {
                 let item = item?;
@@ -1998,6 +2003,10 @@ where
                                     return Ok(false);
                                 }
                             } else {
+                                if self.too_large(wb).await? {
+                                    return Ok(false);
+                                }
+
                                 debug!("<<< No TX space, chunking >>>");
                                 if !self
                                     .send(ReportDataChunkState::ChunkingAttributes, false, wb)
@@ -2031,8 +2040,12 @@ where
         let accessor = self.invoker.exchange().accessor(&metadata)?;
 
         if let Some(event_reqs) = self.req.event_requests()? {
+            let fresh = wb.get_tail() == self.fresh_tail;
             self.release_reserve(wb, 2)?;
             wb.start_array(&TLVTag::Context(ReportDataRespTag::EventReports as _))?;
+            if fresh {
+                self.fresh_tail = wb.get_tail();
+            }
 
             // Validate concrete event paths against node metadata
             // and emit EventStatusIB for non-wildcard paths that don't match
@@ -2109,6 +2122,10 @@ where
                     break;
                 }
 
+                if self.too_large(wb).await? {
+                    return Ok(false);
+                }
+
                 debug!("<<< No TX space, chunking >>>");
                 if !self
                     .send(ReportDataChunkState::ChunkingEvents, false, wb)
@@ -2170,6 +2187,10 @@ where
                     attr.list_index = Some(Nullable::some(new_list_index));
                 }
                 Err(err) if err.code() == ErrorCode::NoSpace => {
+                    if self.too_large(wb).await? {
+                        return Ok(false);
+                    }
+
                     debug!("<<< No TX space, chunking >>>");
                     if !self
                         .send(ReportDataChunkState::ChunkingAttributes, false, wb)
@@ -2210,12 +2231,14 @@ where
                 let cont = self.recv_status_success().await?;
                 self.start_reply(wb)?;
                 wb.start_array(&TLVTag::Context(ReportDataRespTag::AttributeReports as u8))?;
+                self.fresh_tail = wb.get_tail();
                 cont
             }
             ReportDataChunkState::ChunkingEvents => {
                 let cont = self.recv_status_success().await?;
                 self.start_reply(wb)?;
                 wb.start_array(&TLVTag::Context(ReportDataRespTag::EventReports as u8))?;
+                self.fresh_tail = wb.get_tail();
                 cont
             }
             ReportDataChunkState::Done => {
@@ -2228,6 +2251,30 @@ where
         };
 
         Ok(cont)
+    }
+
+    /// Called when an attribute value, a list element or an event did not fit into the reply.
+    ///
+    /// If the reply carries no payload yet, sending it off and retrying cannot help: the item is
+    /// larger than a whole message, and the retry would only produce an endless sequence of empty chunks.
+    /// In that case the interaction is ended with a `ResourceExhausted` status and `true` is returned.
+    async fn too_large(&mut self, wb: &mut WriteBuf<'_>) -> Result<bool, Error> {
+        if wb.get_tail() != self.fresh_tail {
+            return Ok(false);
+        }
+
+        error!("Attribute value, list item or event larger than a whole message, aborting interaction");
+
+        self.invoker
+            .exchange()
+            .send_with(|_, wb| {
+                StatusResp::write(wb, IMStatusCode::ResourceExhausted)?;
+
+                Ok(Some(OpCode::StatusResponse.into()))
+            })
+            .await?;
+
+        Ok(true)
     }
 
     /// Receive a status response from the peer
